@@ -25,12 +25,22 @@ func VerifC11_batch() {
 			p.DoCache(ctx, verifGetCache(k), time.Minute)
 		}
 	}
+	// another caller owns an in-flight request for one key that is not cached, and that request
+	// fails while the batch waits for it (multi-command path only)
+	foreign := ""
+	if verifParam("foreign", 1) == 1 && verifChoose(2) == 1 {
+		k := menu[verifChoose(len(menu))]
+		if v, e := p.cache.Flight(k, "GET", time.Minute, time.Now()); v.typ == 0 && e == nil {
+			foreign = k
+			verifGo("owner", func() { p.cache.Cancel(k, "GET", verifErrPage) })
+		}
+	}
 	n := 2 + verifChoose(verifParam("max_keys", 3)-1)
 	keys := make([]string, n)
 	for i := range keys {
 		keys[i] = menu[verifChoose(len(menu))]
 	}
-	if verifChoose(2) == 0 {
+	if foreign == "" && verifChoose(2) == 0 {
 		mget := Cacheable(cmds.NewBuilder(cmds.NoSlot).Mget().Key(keys...).Cache())
 		arr, err := p.DoCache(ctx, mget, time.Minute).ToArray()
 		verifAssert(err == nil && len(arr) == n, "MGET returns one element per key")
@@ -48,6 +58,13 @@ func VerifC11_batch() {
 		verifAssert(len(rs.s) == n, "DoMultiCache returns one result per command")
 		for i := range rs.s {
 			s, e := rs.s[i].ToString()
+			if keys[i] == foreign {
+				verifAssert(e == verifErrPage || (e == nil && s == server.value(keys[i])), "a command that waited for another caller's request gets that request's outcome")
+				if e != nil {
+					verifReach("foreignfailed")
+				}
+				continue
+			}
 			verifAssert(e == nil && s == server.value(keys[i]), "result i of DoMultiCache is the reply to command i")
 		}
 		verifReach("multicache")
